@@ -1,7 +1,7 @@
 import sys
 import logging
 from jax import vmap, jacfwd
-from jax.numpy import expand_dims, reshape
+from jax.numpy import expand_dims, reshape, where
 from abc import ABC, abstractmethod
 from importlib import import_module
 from datetime import datetime
@@ -488,7 +488,13 @@ class Pow(CovariancePair):
 
             # Compute the gradient of the powered covariance function using the chain rule
             # (f(x)^n)' = n * f(x)^(n-1) * f'(x)
-            power_grad = self.right * (base_k ** (self.right - 1)) * base_grad
+            # where the base underflowed to 0.0 the product is 0**(n-1) * 0 = inf * 0 = nan for n < 1;
+            # the true value is below the float range there, so return 0
+            power_grad = where(
+                base_k > 0,
+                self.right * (base_k ** (self.right - 1)) * base_grad,
+                0.0,
+            )
 
             target_shape = x_shape[:-1] + y_shape
             full_grad = expand_to_inactive(power_grad, target_shape, active_dims)
